@@ -39,7 +39,10 @@ Transforms ==
      T(<<1, 0, 1, 1, 0, 0>>, 1),          \* shear
      T(<<2, 0, 0, 1, 0, 1>>, 1),          \* non-uniform scale
      T(<<0, 0, 0, 0, 1, 1>>, 1),          \* singular: zero
-     T(<<1, 2, 2, 4, 0, 0>>, 1) >>        \* singular: rank one
+     T(<<1, 2, 2, 4, 0, 0>>, 1),          \* singular: rank one
+     T(<<2, 0, 0, 2, 0, 1>>, 2),          \* translate (0, 1/2): whole pixels in x only
+     T(<<4, 0, 0, 4, 4, 5>>, 4),          \* translate (1, 5/4)
+     T(<<2, 0, 0, 2, 3, 0>>, 2) >>        \* translate (3/2, 0): whole pixels in y only
 ClipRects ==
   << <<1, 1, 4, 4>>, <<0, 2, 5, 5>>, <<2, 0, 3, 5>>, <<4, 4, 5, 5>>, <<0, 0, 5, 5>>,
      <<3, 3, 1, 1>>, <<-3, -3, 0, 0>>, <<6, 0, 9, 5>>, <<-2, 1, 3, 9>>, <<0, 0, 1, 3>>, <<2, 0, 3, 3>> >>
